@@ -38,6 +38,10 @@ def check(run):
         run.guard("C12.5.url-scanner-tables", cfg + "/brackets", lambda: rule_brackets(run, F, cfg))
         run.guard("C12.5.url-scanner-tables", cfg + "/host-normalisation", lambda: rule_host_normalised(run, F, cfg))
         run.guard("C12.6.host-span", cfg, lambda: rule_host_span(run, F, cfg))
+        run.guard("C12.7.whole-url", cfg, lambda: rule_whole_url(run, F, cfg))
+        from . import C03 as _C03
+        b3 = run.borrow("C03", why="only requests with is_supported are eligible for matching")
+        run.guard("C12.via.C03.4.unsupported-schemes", cfg, lambda: _C03.rule_unsupported(b3, F, cfg))
 
 
 def rule_scheme(run, F, cfg):
@@ -353,3 +357,31 @@ def rule_host_span(run, F, cfg):
            and len(ok_row) == 1 and ok_row[0][2][1] == "core::str::len(arg:host)" and ok_row[0][2][0].startswith("(core::str::len(arg:host) SubWithOverflow "),
            "get_host_domain: a host the public-suffix parser rejects is its own registrable domain (0, host.len()); "
            f"otherwise (host.len() - domain.len(), host.len()) (rows: {rows})", site=g.loc(0), config=cfg)
+
+
+def rule_whole_url(run, F, cfg):
+    """The URL a request is matched against is the complete normalised URL: everything after the host (port, path,
+    query AND fragment) is appended verbatim by the parser, and Request keeps that string (and its lower-cased copy)
+    unchanged. Patterns, right anchors and the content-blocking export all assume the whole URL."""
+    f = F.fn("url_parser::parser::Parser::after_double_slash")
+    tail = [f.expr_operand(t["args"][1]) for b, t in f.calls(r"^std::string::String::push_str$")
+            if f.expr_operand(t["args"][1]) != '"//"']
+    ok = len(tail) == 1 and bool(re.match(r"^std::str::Chars::as_str\(url_parser::parser::Parser::parse_host\(.*\)@Continue\.0\.1\.chars\)$", tail[0]))
+    run.ob("C12.7.whole-url", "remainder-appended-verbatim", ok,
+           f"after the host, after_double_slash appends the remaining input as it is ({[t[:120] for t in tail]})", site=f.loc(0), config=cfg)
+    r = F.fn("request::Request::from_detailed_parameters")
+    vals = {}
+    for b, i, st in r.statements():
+        if st["k"] == "assign" and st["rv"]["k"] == "agg" and st["rv"].get("adt") == "request::Request":
+            d = dict(zip(st["rv"]["fields"], st["rv"]["ops"]))
+            vals = {k: r.expr_operand(d[k]) for k in ("url", "url_lower_cased", "original_url") if k in d}
+    p_url = None
+    for l, n in r.varnames.items():
+        if n == "url" and 1 <= l <= r.argc:
+            p_url = "arg:url"
+    okr = vals.get("url") in ("std::str::to_owned(arg:url)", "<str as std::string::ToString>::to_string(arg:url)", "std::string::String::from(arg:url)") \
+        and vals.get("url_lower_cased") in ("std::str::to_ascii_lowercase(arg:url)", "std::str::to_lowercase(arg:url)") \
+        and vals.get("original_url") == "arg:original_url"
+    run.ob("C12.7.whole-url", "request-keeps-the-url", okr,
+           f"Request.url / url_lower_cased are the `url` argument (and its lower-cased copy), original_url the caller's string ({vals})",
+           site=r.loc(0), config=cfg)
